@@ -636,17 +636,17 @@ Qed.
 
 Lemma update_ids : forall c st s, s_ids (update c st s) = s_ids s.
 Proof.
-  intros; unfold update. destruct (negb (a_has_model (s_ann s))); [reflexivity|].
+  intros; unfold update. destruct (negb (a_has_model (s_ann s))); [destruct (a_hash (s_ann s)); reflexivity|].
   destruct (opt_str_eqb _ _); reflexivity.
 Qed.
 Lemma update_err : forall c st s, a_err (s_ann (update c st s)) = a_err (s_ann s).
 Proof.
-  intros; unfold update. destruct (negb (a_has_model (s_ann s))); [reflexivity|].
+  intros; unfold update. destruct (negb (a_has_model (s_ann s))); [destruct (a_hash (s_ann s)); reflexivity|].
   destruct (opt_str_eqb _ _); reflexivity.
 Qed.
 Lemma update_has_model : forall c st s, a_has_model (s_ann (update c st s)) = a_has_model (s_ann s).
 Proof.
-  intros; unfold update. destruct (negb (a_has_model (s_ann s))); [reflexivity|].
+  intros; unfold update. destruct (negb (a_has_model (s_ann s))); [destruct (a_hash (s_ann s)); reflexivity|].
   destruct (opt_str_eqb _ _); reflexivity.
 Qed.
 Lemma set_model_ids : forall c st s, s_ids (set_model c st s) = s_ids s.
